@@ -31,6 +31,24 @@ class MockKmerFinder:
         return True
 
 
+class ShortReadBypassKmerFinder:
+    """
+    Wrap a k-mer finder for adapters that allow skipping both ends of the adapter
+    ("anywhere" adapters): A read that is shorter than the adapter plus the allowed
+    errors may align to the inside of the adapter. None of the k-mer search sets
+    covers that case, so the heuristic must not be used for such reads.
+    """
+
+    def __init__(self, kmer_finder, min_length: int):
+        self.kmer_finder = kmer_finder
+        self.min_length = min_length
+
+    def kmers_present(self, sequence: str):
+        return len(sequence) < self.min_length or self.kmer_finder.kmers_present(
+            sequence
+        )
+
+
 class InvalidCharacter(Exception):
     pass
 
@@ -619,7 +637,7 @@ class SingleAdapter(Adapter, ABC):
         back_adapter: bool,
         front_adapter: bool,
         internal: bool = True,
-    ) -> Union[KmerFinder, MockKmerFinder]:
+    ) -> Union[KmerFinder, MockKmerFinder, ShortReadBypassKmerFinder]:
         positions_and_kmers = create_positions_and_kmers(
             sequence,
             self.min_overlap,
@@ -632,12 +650,16 @@ class SingleAdapter(Adapter, ABC):
         if self._debug:
             print(kmer_probability_analysis(positions_and_kmers))
         try:
-            return KmerFinder(
+            kmer_finder = KmerFinder(
                 positions_and_kmers, self.adapter_wildcards, self.read_wildcards
             )
         except ValueError:
             # Kmers too long.
             return MockKmerFinder()
+        if back_adapter and front_adapter:
+            max_errors = int(len(sequence) * self.max_error_rate)
+            return ShortReadBypassKmerFinder(kmer_finder, len(sequence) + max_errors)
+        return kmer_finder
 
     def __repr__(self):
         return (
